@@ -24,7 +24,7 @@ RULE = ("same generated domain as C01, with boundary requests (exactly the adver
 REQUIRED_BUCKETS = ["supply", "consume", "multi-inverter", "zero-headroom-group", "zero-headroom-with-min-power",
                     "power-kind:excl-edge", "power-kind:incl-edge", "nonzero-exclusion", "exponent-0",
                     "setpoint-on-incl-bound", "setpoint-on-excl-bound"]
-REQUIRED_COUNTERS = ["contract_public", "inverter_setpoints_checked", "group_totals_checked"]
+REQUIRED_COUNTERS = ["contract_public", "inverter_setpoints_checked", "group_totals_checked", "enforced_bounds_observed"]
 ASSUMPTIONS = ["float tolerance 1e-6*max(1,|power|)", "domain as C01"]
 
 
@@ -39,7 +39,18 @@ def gen(rng: Any, tier: str, i: int) -> Any:
 
 
 def check(case: dict[str, Any], rec: Any) -> None:
-    f = c01.features(case, rec)
+    _judge(case, rec, band=False)
+    # requests the distributor itself would admit (real BatteryManager._get_bounds) although they lie
+    # inside the pool-advertised exclusion zone: same oracle, separate bucket
+    rec.count("enforced_bounds_observed")
+    for power in distmon.band_requests(case):
+        rec.bucket("enforced-band-request")
+        rec.count("band_requests")
+        _judge(dict(case, power=power, power_kind="enforced-band"), rec, band=True)
+
+
+def _judge(case: dict[str, Any], rec: Any, band: bool) -> None:
+    f = c01.features(case, rec) if not band else {"multi": False, "zero_headroom_with_min": False}
     if f["zero_headroom_with_min"]:
         rec.bucket("zero-headroom-with-min-power")
     out = distmon.run(case)
@@ -69,7 +80,7 @@ def check(case: dict[str, Any], rec: Any) -> None:
             if (inv["eu"] if up else -inv["el"]) > 0 and abs(v - (inv["eu"] if up else inv["el"])) <= t:
                 rec.bucket("setpoint-on-excl-bound")
             w = {"power": p, "group": g, "inverter": iid, "set_point": v, "inverter_bounds": inv,
-                 "group_total_so_far": total, "distribution": dist, "stages": rep, "exp": case["exp"]}
+                 "group_total_so_far": total, "distribution": dist, "stages": rep, "exp": case["exp"], "band": band}
             if not (inv["il"] - t <= v <= inv["iu"] + t):
                 rec.violation("inverter-outside-inclusion", w)
             elif inv["el"] + t < v < inv["eu"] - t:
@@ -77,7 +88,7 @@ def check(case: dict[str, Any], rec: Any) -> None:
         if (m["bat_eu"] if up else -m["bat_el"]) > 0:
             any_excl = True
         headroom = m["headroom_up"] if up else m["headroom_dn"]
-        wg = {"power": p, "group": g, "group_total": total, "headroom": headroom, "exp": case["exp"],
+        wg = {"power": p, "group": g, "group_total": total, "headroom": headroom, "exp": case["exp"], "band": band,
               "battery_bounds": [m["bat_il"], m["bat_el"], m["bat_eu"], m["bat_iu"]],
               "min_power": m["min_up"] if up else m["min_dn"], "n_inverters": len(grp["invs"]),
               "distribution": dist, "stages": rep,
@@ -94,6 +105,8 @@ def check(case: dict[str, Any], rec: Any) -> None:
             rec.violation("group-inside-battery-exclusion", wg)
     if any_excl:
         rec.bucket("nonzero-exclusion")
+    if band:
+        return
     rec.nontrivial(any_nonzero and (any_excl or f["multi"] or f["zero_headroom_with_min"]))
     rec.observed({"set_points": dist})
 
